@@ -50,7 +50,8 @@ where
     run.h(w as u64 * 1000 + s as u64);
     run.count(row_name(w, s), 1);
     let max_len = if run.small { 20 } else if run.thorough() { 120 } else { 40 };
-    let n = rng.usize_in(1, max_len);
+    // (one message in 40 is long enough for the adversary to pile up dozens of held-back words)
+    let n = if !run.small && rng.chance(1, 40) { rng.usize_in(60, 130) } else { rng.usize_in(1, max_len) };
 
     // optional non-empty prefix already in the sink ("started on a sink that already holds data")
     let prefix: Vec<M::W> = if rng.chance(1, 4) {
@@ -86,7 +87,11 @@ where
     let ninv = num_inverted::<M, S>(&enc);
     let before_seal = enc.bulk().len();
     let sealed: Vec<M::W> = enc.into_compressed().unwrap_infallible();
-    let k = sealed.len() - before_seal - ninv; // number of seal words proper (1, or the point word padded with zero words)
+    // number of seal words proper (1, or the point word padded with zero words)
+    let Some(k) = sealed.len().checked_sub(before_seal + ninv).filter(|&k| k >= 1) else {
+        run.violation("suffix-changes-decoding", "C11/sealed-output-too-short", format!("W={} S={} message {}: {} words were written before sealing and {ninv} were held back, but the sealed output has only {} words", <M::W as Num>::NAME, S::NAME, describe_msg(&msg), before_seal, sealed.len()));
+        return;
+    };
     run.count(if k >= 2 { "seal_two_words" } else { "seal_one_word" }, 1);
 
     // ---- analytic side-oracle
